@@ -453,6 +453,9 @@ class Engine:
         # override emit settings in store
         if store_schema:
             self.state._apply_config(store_schema)
+            # the schema may have added nodes: the processes' views of
+            # the hierarchy are rebuilt so that they show them
+            self.state.build_topology_views()
 
         # settings for self._emit_configuration()
         self.emit_topology = emit_topology
